@@ -1145,7 +1145,11 @@ func genGraph(rt *rapid.T, f *family, l load) *graph {
 			}
 			for _, fn := range m.alt {
 				// a referenced non-key column: duplicates are likely, "" (gorm: no value) possible
-				if v := rapid.SampledFrom([]string{"", "a", "a", "b", "a_b", "nil", "0", "日本", "1", "2"}).Draw(rt, fn); v != "" {
+				v := rapid.SampledFrom([]string{"", "a", "a", "b", "a_b", "nil", "0", "日本", "1", "2"}).Draw(rt, fn)
+				if v == "" && m.altNonEmpty {
+					v = "a"
+				}
+				if v != "" {
 					setVal(field(r, fn), val{Str: true, S: v})
 				}
 			}
@@ -2731,6 +2735,7 @@ func classesOf(g *graph, l load) []string {
 // typeShapes labels the relations whose key columns have a special type shape.
 var typeShapes = map[string]string{
 	"AUser.Gifts":   "type:references-non-primary-column",
+	"AUser.Clubs":   "type:many2many-references-non-unique-column",
 	"AUser.Memos":   "type:polymorphic-with-foreignKey-on-non-primary-column",
 	"AUser.Stamp":   "type:polymorphic-with-foreignKey-on-non-primary-column",
 	"AGift.Giver":   "type:references-non-primary-column",
@@ -2804,7 +2809,7 @@ var (
 
 func genLoad(rt *rapid.T, f *family, wide bool) load {
 	l := load{}
-	l.Root = rapid.SampledFrom([]string{f.name + "User", f.name + "User", f.name + "User", f.name + "User", f.name + "Company", f.name + "Pet"}).Draw(rt, "root")
+	l.Root = rapid.SampledFrom(append([]string{f.name + "User", f.name + "User", f.name + "User", f.name + "User", f.name + "Company", f.name + "Pet"}, f.extraRoots...)).Draw(rt, "root")
 	root := f.m(l.Root)
 	l.Mode = rapid.SampledFrom([]string{"query", "query", "query", "assoc-find"}).Draw(rt, "mode")
 	if !wide && rapid.IntRange(0, 11).Draw(rt, "focus") == 0 {
